@@ -18,6 +18,8 @@ class FakeTransport(object):
             return ('127.0.0.1', 50000 + self._conn.id % 10000)
         if name == 'ssl_object':
             return _FakeSSLObject()
+        if name == 'socket':
+            return FakeSocket(self._conn)
         return default
 
     def is_closing(self):
@@ -30,6 +32,19 @@ class FakeTransport(object):
         self._conn.close_from_client()
 
 
+class FakeSocket(object):
+    '''Stands for the connected socket of a simulated connection (handed back to open_connection(sock=...) when a
+    client starts TLS inside an established tunnel).'''
+    def __init__(self, conn):
+        self.conn = conn
+
+    def getpeername(self):
+        return (self.conn.host, self.conn.port)
+
+    def getpeercert(self, binary_form=False):
+        return {}
+
+
 class _FakeSSLObject(object):
     def getpeercert(self, binary_form=False):
         return {}
@@ -39,6 +54,9 @@ class FakeWriter(object):
     def __init__(self, conn):
         self._conn = conn
         self.transport = FakeTransport(conn)
+
+    def get_extra_info(self, name, default=None):
+        return self.transport.get_extra_info(name, default)
 
     def write(self, data):
         self._conn.client_write(bytes(data))
@@ -201,6 +219,13 @@ class Net(object):
             self._orig = None
 
     async def open_connection(self, host=None, port=None, **kwargs):
+        sock = kwargs.get('sock')
+        if isinstance(sock, FakeSocket):
+            # TLS started on an existing simulated connection (tunnel through a proxy): same byte stream from here on
+            await asyncio.sleep(0)
+            sock.conn.tls_started = True
+            self.log.append((sock.conn.id, 'start-tls', b''))
+            return sock.conn.reader, sock.conn.writer
         if self.connect_gate is not None:
             await self.connect_gate(host, port)
         else:
@@ -284,6 +309,10 @@ class HTTPScriptPeer(Peer):
     def connection_made(self, conn):
         self._buf[conn.id] = bytearray()
 
+    def auto_response(self, conn, raw):
+        '''Subclasses may answer some requests (e.g. CONNECT) outside the script.'''
+        return None
+
     def data_received(self, conn, data):
         buf = self._buf[conn.id]
         buf.extend(data)
@@ -294,7 +323,10 @@ class HTTPScriptPeer(Peer):
             raw = bytes(buf[:n])
             del buf[:n]
             self.requests.append((conn.id, raw))
-            if self.index < len(self.responses):
+            auto = self.auto_response(conn, raw)
+            if auto is not None:
+                conn.spawn(self._serve(conn, auto, None))
+            elif self.index < len(self.responses):
                 resp = self.responses[self.index]
                 idx = self.index
                 self.index += 1
